@@ -207,26 +207,16 @@ fn deserialize<'a>(ty: &OwnedDataModelType, data: &'a [u8]) -> Result<(Value, &'
             name: _,
             data: OwnedData::Tuple(tys),
         } => {
-            match &tys[..] {
-                [] => {
-                    // TODO: Not sure this is right...
-                    Ok((Value::Null, data))
-                }
-                [ty] => {
-                    // Single item, NOT an array
-                    deserialize(ty, data)
-                }
-                multi => {
-                    let mut vec = vec![];
-                    let mut rest = data;
-                    for ty in multi.iter() {
-                        let (val, irest) = deserialize(ty, rest)?;
-                        rest = irest;
-                        vec.push(val);
-                    }
-                    Ok((Value::Array(vec), rest))
-                }
+            // Tuples of any arity (including 0 and 1) are arrays, as in serde_json.
+            // Single-field tuple structs and variants are newtypes in the schema.
+            let mut vec = vec![];
+            let mut rest = data;
+            for ty in tys.iter() {
+                let (val, irest) = deserialize(ty, rest)?;
+                rest = irest;
+                vec.push(val);
             }
+            Ok((Value::Array(vec), rest))
         }
         OwnedDataModelType::Map { key, val } => {
             // TODO: impling blind because we can't test this, oops
